@@ -109,6 +109,13 @@ pub struct CircuitBreakerConfig<C> {
     pub wait_duration_in_open: Duration, pub permitted_calls_in_half_open: usize, pub minimum_number_of_calls: usize, pub failure_classifier: C,
     pub slow_call_duration_threshold: Option<Duration>, pub slow_call_rate_threshold: f64, pub event_listeners: EventListeners, pub name: Name,
 }
+pub struct FnClassifier<F> { pub f: F }
+impl<F> FnClassifier<F> {
+    pub fn new(f: F) -> (r: Self) ensures r.f == f { FnClassifier { f } }
+}
+/// the closure classify_response builds around the user's response predicate
+pub struct ResponseClassifier { pub id: Ghost<int> }
+pub struct Listener { pub id: Ghost<int> }
 pub struct CircuitBreakerLayer<C> { pub config: Arc<CircuitBreakerConfig<C>> }
 impl<C> CircuitBreakerLayer<C> {
     pub fn new(config: CircuitBreakerConfig<C>) -> (r: Self)
@@ -123,47 +130,119 @@ pub struct CircuitBreakerConfigBuilder<C> {
 impl<C> CircuitBreakerConfigBuilder<C> {
     pub fn failure_rate_threshold(self, rate: f64) -> (r: Self)
         ensures r.failure_rate_threshold == rate,   // #sets_failure_rate_threshold [C04]
-            r.sliding_window_type == self.sliding_window_type && r.sliding_window_size == self.sliding_window_size && r.sliding_window_duration == self.sliding_window_duration && r.wait_duration_in_open == self.wait_duration_in_open && r.permitted_calls_in_half_open == self.permitted_calls_in_half_open && r.failure_classifier == self.failure_classifier && r.minimum_number_of_calls == self.minimum_number_of_calls && r.slow_call_duration_threshold == self.slow_call_duration_threshold && r.slow_call_rate_threshold == self.slow_call_rate_threshold && r.event_listeners == self.event_listeners && r.name == self.name,   // #keeps_every_other_setting [C04]
+            r.permitted_calls_in_half_open == self.permitted_calls_in_half_open,   // #keeps_the_half_open_budget [C04,C09]
+            r.wait_duration_in_open == self.wait_duration_in_open,   // #keeps_the_open_wait [C03,C04]
+            r.sliding_window_type == self.sliding_window_type && r.sliding_window_size == self.sliding_window_size && r.sliding_window_duration == self.sliding_window_duration && r.failure_classifier == self.failure_classifier && r.minimum_number_of_calls == self.minimum_number_of_calls && r.slow_call_duration_threshold == self.slow_call_duration_threshold && r.slow_call_rate_threshold == self.slow_call_rate_threshold && r.event_listeners == self.event_listeners && r.name == self.name,   // #keeps_every_other_setting [C04]
     //@body CircuitBreakerConfigBuilder::failure_rate_threshold file=cbconfig
     pub fn sliding_window_type(self, window_type: SlidingWindowType) -> (r: Self)
         ensures r.sliding_window_type == window_type,   // #sets_sliding_window_type [C04]
-            r.failure_rate_threshold == self.failure_rate_threshold && r.sliding_window_size == self.sliding_window_size && r.sliding_window_duration == self.sliding_window_duration && r.wait_duration_in_open == self.wait_duration_in_open && r.permitted_calls_in_half_open == self.permitted_calls_in_half_open && r.failure_classifier == self.failure_classifier && r.minimum_number_of_calls == self.minimum_number_of_calls && r.slow_call_duration_threshold == self.slow_call_duration_threshold && r.slow_call_rate_threshold == self.slow_call_rate_threshold && r.event_listeners == self.event_listeners && r.name == self.name,   // #keeps_every_other_setting [C04]
+            r.permitted_calls_in_half_open == self.permitted_calls_in_half_open,   // #keeps_the_half_open_budget [C04,C09]
+            r.wait_duration_in_open == self.wait_duration_in_open,   // #keeps_the_open_wait [C03,C04]
+            r.failure_rate_threshold == self.failure_rate_threshold && r.sliding_window_size == self.sliding_window_size && r.sliding_window_duration == self.sliding_window_duration && r.failure_classifier == self.failure_classifier && r.minimum_number_of_calls == self.minimum_number_of_calls && r.slow_call_duration_threshold == self.slow_call_duration_threshold && r.slow_call_rate_threshold == self.slow_call_rate_threshold && r.event_listeners == self.event_listeners && r.name == self.name,   // #keeps_every_other_setting [C04]
     //@body CircuitBreakerConfigBuilder::sliding_window_type file=cbconfig
     pub fn sliding_window_size(self, size: usize) -> (r: Self)
         ensures r.sliding_window_size == size,   // #sets_sliding_window_size [C04]
-            r.failure_rate_threshold == self.failure_rate_threshold && r.sliding_window_type == self.sliding_window_type && r.sliding_window_duration == self.sliding_window_duration && r.wait_duration_in_open == self.wait_duration_in_open && r.permitted_calls_in_half_open == self.permitted_calls_in_half_open && r.failure_classifier == self.failure_classifier && r.minimum_number_of_calls == self.minimum_number_of_calls && r.slow_call_duration_threshold == self.slow_call_duration_threshold && r.slow_call_rate_threshold == self.slow_call_rate_threshold && r.event_listeners == self.event_listeners && r.name == self.name,   // #keeps_every_other_setting [C04]
+            r.permitted_calls_in_half_open == self.permitted_calls_in_half_open,   // #keeps_the_half_open_budget [C04,C09]
+            r.wait_duration_in_open == self.wait_duration_in_open,   // #keeps_the_open_wait [C03,C04]
+            r.failure_rate_threshold == self.failure_rate_threshold && r.sliding_window_type == self.sliding_window_type && r.sliding_window_duration == self.sliding_window_duration && r.failure_classifier == self.failure_classifier && r.minimum_number_of_calls == self.minimum_number_of_calls && r.slow_call_duration_threshold == self.slow_call_duration_threshold && r.slow_call_rate_threshold == self.slow_call_rate_threshold && r.event_listeners == self.event_listeners && r.name == self.name,   // #keeps_every_other_setting [C04]
     //@body CircuitBreakerConfigBuilder::sliding_window_size file=cbconfig
     pub fn sliding_window_duration(self, duration: Duration) -> (r: Self)
         ensures r.sliding_window_duration == Some(duration),   // #sets_sliding_window_duration [C04]
-            r.failure_rate_threshold == self.failure_rate_threshold && r.sliding_window_type == self.sliding_window_type && r.sliding_window_size == self.sliding_window_size && r.wait_duration_in_open == self.wait_duration_in_open && r.permitted_calls_in_half_open == self.permitted_calls_in_half_open && r.failure_classifier == self.failure_classifier && r.minimum_number_of_calls == self.minimum_number_of_calls && r.slow_call_duration_threshold == self.slow_call_duration_threshold && r.slow_call_rate_threshold == self.slow_call_rate_threshold && r.event_listeners == self.event_listeners && r.name == self.name,   // #keeps_every_other_setting [C04]
+            r.permitted_calls_in_half_open == self.permitted_calls_in_half_open,   // #keeps_the_half_open_budget [C04,C09]
+            r.wait_duration_in_open == self.wait_duration_in_open,   // #keeps_the_open_wait [C03,C04]
+            r.failure_rate_threshold == self.failure_rate_threshold && r.sliding_window_type == self.sliding_window_type && r.sliding_window_size == self.sliding_window_size && r.failure_classifier == self.failure_classifier && r.minimum_number_of_calls == self.minimum_number_of_calls && r.slow_call_duration_threshold == self.slow_call_duration_threshold && r.slow_call_rate_threshold == self.slow_call_rate_threshold && r.event_listeners == self.event_listeners && r.name == self.name,   // #keeps_every_other_setting [C04]
     //@body CircuitBreakerConfigBuilder::sliding_window_duration file=cbconfig
     pub fn wait_duration_in_open(self, duration: Duration) -> (r: Self)
-        ensures r.wait_duration_in_open == duration,   // #sets_wait_duration_in_open [C04]
-            r.failure_rate_threshold == self.failure_rate_threshold && r.sliding_window_type == self.sliding_window_type && r.sliding_window_size == self.sliding_window_size && r.sliding_window_duration == self.sliding_window_duration && r.permitted_calls_in_half_open == self.permitted_calls_in_half_open && r.failure_classifier == self.failure_classifier && r.minimum_number_of_calls == self.minimum_number_of_calls && r.slow_call_duration_threshold == self.slow_call_duration_threshold && r.slow_call_rate_threshold == self.slow_call_rate_threshold && r.event_listeners == self.event_listeners && r.name == self.name,   // #keeps_every_other_setting [C04]
+        ensures r.wait_duration_in_open == duration,   // #sets_wait_duration_in_open [C03,C04]
+            r.permitted_calls_in_half_open == self.permitted_calls_in_half_open,   // #keeps_the_half_open_budget [C04,C09]
+            r.failure_rate_threshold == self.failure_rate_threshold && r.sliding_window_type == self.sliding_window_type && r.sliding_window_size == self.sliding_window_size && r.sliding_window_duration == self.sliding_window_duration && r.failure_classifier == self.failure_classifier && r.minimum_number_of_calls == self.minimum_number_of_calls && r.slow_call_duration_threshold == self.slow_call_duration_threshold && r.slow_call_rate_threshold == self.slow_call_rate_threshold && r.event_listeners == self.event_listeners && r.name == self.name,   // #keeps_every_other_setting [C04]
     //@body CircuitBreakerConfigBuilder::wait_duration_in_open file=cbconfig
     pub fn permitted_calls_in_half_open(self, n: usize) -> (r: Self)
-        ensures r.permitted_calls_in_half_open == n,   // #sets_permitted_calls_in_half_open [C04]
-            r.failure_rate_threshold == self.failure_rate_threshold && r.sliding_window_type == self.sliding_window_type && r.sliding_window_size == self.sliding_window_size && r.sliding_window_duration == self.sliding_window_duration && r.wait_duration_in_open == self.wait_duration_in_open && r.failure_classifier == self.failure_classifier && r.minimum_number_of_calls == self.minimum_number_of_calls && r.slow_call_duration_threshold == self.slow_call_duration_threshold && r.slow_call_rate_threshold == self.slow_call_rate_threshold && r.event_listeners == self.event_listeners && r.name == self.name,   // #keeps_every_other_setting [C04]
+        ensures r.permitted_calls_in_half_open == n,   // #sets_permitted_calls_in_half_open [C04,C09]
+            r.wait_duration_in_open == self.wait_duration_in_open,   // #keeps_the_open_wait [C03,C04]
+            r.failure_rate_threshold == self.failure_rate_threshold && r.sliding_window_type == self.sliding_window_type && r.sliding_window_size == self.sliding_window_size && r.sliding_window_duration == self.sliding_window_duration && r.failure_classifier == self.failure_classifier && r.minimum_number_of_calls == self.minimum_number_of_calls && r.slow_call_duration_threshold == self.slow_call_duration_threshold && r.slow_call_rate_threshold == self.slow_call_rate_threshold && r.event_listeners == self.event_listeners && r.name == self.name,   // #keeps_every_other_setting [C04]
     //@body CircuitBreakerConfigBuilder::permitted_calls_in_half_open file=cbconfig
     pub fn minimum_number_of_calls(self, n: usize) -> (r: Self)
         ensures r.minimum_number_of_calls == Some(n),   // #sets_minimum_number_of_calls [C04]
-            r.failure_rate_threshold == self.failure_rate_threshold && r.sliding_window_type == self.sliding_window_type && r.sliding_window_size == self.sliding_window_size && r.sliding_window_duration == self.sliding_window_duration && r.wait_duration_in_open == self.wait_duration_in_open && r.permitted_calls_in_half_open == self.permitted_calls_in_half_open && r.failure_classifier == self.failure_classifier && r.slow_call_duration_threshold == self.slow_call_duration_threshold && r.slow_call_rate_threshold == self.slow_call_rate_threshold && r.event_listeners == self.event_listeners && r.name == self.name,   // #keeps_every_other_setting [C04]
+            r.permitted_calls_in_half_open == self.permitted_calls_in_half_open,   // #keeps_the_half_open_budget [C04,C09]
+            r.wait_duration_in_open == self.wait_duration_in_open,   // #keeps_the_open_wait [C03,C04]
+            r.failure_rate_threshold == self.failure_rate_threshold && r.sliding_window_type == self.sliding_window_type && r.sliding_window_size == self.sliding_window_size && r.sliding_window_duration == self.sliding_window_duration && r.failure_classifier == self.failure_classifier && r.slow_call_duration_threshold == self.slow_call_duration_threshold && r.slow_call_rate_threshold == self.slow_call_rate_threshold && r.event_listeners == self.event_listeners && r.name == self.name,   // #keeps_every_other_setting [C04]
     //@body CircuitBreakerConfigBuilder::minimum_number_of_calls file=cbconfig
     pub fn slow_call_duration_threshold(self, duration: Duration) -> (r: Self)
         ensures r.slow_call_duration_threshold == Some(duration),   // #sets_slow_call_duration_threshold [C04]
-            r.failure_rate_threshold == self.failure_rate_threshold && r.sliding_window_type == self.sliding_window_type && r.sliding_window_size == self.sliding_window_size && r.sliding_window_duration == self.sliding_window_duration && r.wait_duration_in_open == self.wait_duration_in_open && r.permitted_calls_in_half_open == self.permitted_calls_in_half_open && r.failure_classifier == self.failure_classifier && r.minimum_number_of_calls == self.minimum_number_of_calls && r.slow_call_rate_threshold == self.slow_call_rate_threshold && r.event_listeners == self.event_listeners && r.name == self.name,   // #keeps_every_other_setting [C04]
+            r.permitted_calls_in_half_open == self.permitted_calls_in_half_open,   // #keeps_the_half_open_budget [C04,C09]
+            r.wait_duration_in_open == self.wait_duration_in_open,   // #keeps_the_open_wait [C03,C04]
+            r.failure_rate_threshold == self.failure_rate_threshold && r.sliding_window_type == self.sliding_window_type && r.sliding_window_size == self.sliding_window_size && r.sliding_window_duration == self.sliding_window_duration && r.failure_classifier == self.failure_classifier && r.minimum_number_of_calls == self.minimum_number_of_calls && r.slow_call_rate_threshold == self.slow_call_rate_threshold && r.event_listeners == self.event_listeners && r.name == self.name,   // #keeps_every_other_setting [C04]
     //@body CircuitBreakerConfigBuilder::slow_call_duration_threshold file=cbconfig
     pub fn slow_call_rate_threshold(self, rate: f64) -> (r: Self)
         ensures r.slow_call_rate_threshold == rate,   // #sets_slow_call_rate_threshold [C04]
-            r.failure_rate_threshold == self.failure_rate_threshold && r.sliding_window_type == self.sliding_window_type && r.sliding_window_size == self.sliding_window_size && r.sliding_window_duration == self.sliding_window_duration && r.wait_duration_in_open == self.wait_duration_in_open && r.permitted_calls_in_half_open == self.permitted_calls_in_half_open && r.failure_classifier == self.failure_classifier && r.minimum_number_of_calls == self.minimum_number_of_calls && r.slow_call_duration_threshold == self.slow_call_duration_threshold && r.event_listeners == self.event_listeners && r.name == self.name,   // #keeps_every_other_setting [C04]
+            r.permitted_calls_in_half_open == self.permitted_calls_in_half_open,   // #keeps_the_half_open_budget [C04,C09]
+            r.wait_duration_in_open == self.wait_duration_in_open,   // #keeps_the_open_wait [C03,C04]
+            r.failure_rate_threshold == self.failure_rate_threshold && r.sliding_window_type == self.sliding_window_type && r.sliding_window_size == self.sliding_window_size && r.sliding_window_duration == self.sliding_window_duration && r.failure_classifier == self.failure_classifier && r.minimum_number_of_calls == self.minimum_number_of_calls && r.slow_call_duration_threshold == self.slow_call_duration_threshold && r.event_listeners == self.event_listeners && r.name == self.name,   // #keeps_every_other_setting [C04]
     //@body CircuitBreakerConfigBuilder::slow_call_rate_threshold file=cbconfig
+    pub fn name<N>(self, n: N) -> (r: Self)
+        ensures
+            r.permitted_calls_in_half_open == self.permitted_calls_in_half_open,   // #keeps_the_half_open_budget [C04,C09]
+            r.wait_duration_in_open == self.wait_duration_in_open,   // #keeps_the_open_wait [C03,C04]
+            r.failure_rate_threshold == self.failure_rate_threshold && r.sliding_window_type == self.sliding_window_type && r.sliding_window_size == self.sliding_window_size && r.sliding_window_duration == self.sliding_window_duration && r.failure_classifier == self.failure_classifier && r.minimum_number_of_calls == self.minimum_number_of_calls && r.slow_call_duration_threshold == self.slow_call_duration_threshold && r.slow_call_rate_threshold == self.slow_call_rate_threshold && r.event_listeners == self.event_listeners,   // #keeps_every_other_setting [C04]
+    //@body CircuitBreakerConfigBuilder::name file=cbconfig
+    pub fn failure_classifier<F, Res, Err>(self, classifier: F) -> (r: CircuitBreakerConfigBuilder<FnClassifier<F>>)
+        ensures r.failure_classifier.f == classifier,   // #installs_the_given_classifier [C04]
+            r.permitted_calls_in_half_open == self.permitted_calls_in_half_open,   // #keeps_the_half_open_budget [C04,C09]
+            r.wait_duration_in_open == self.wait_duration_in_open,   // #keeps_the_open_wait [C03,C04]
+            r.failure_rate_threshold == self.failure_rate_threshold && r.sliding_window_type == self.sliding_window_type && r.sliding_window_size == self.sliding_window_size && r.sliding_window_duration == self.sliding_window_duration && r.minimum_number_of_calls == self.minimum_number_of_calls && r.slow_call_duration_threshold == self.slow_call_duration_threshold && r.slow_call_rate_threshold == self.slow_call_rate_threshold && r.event_listeners == self.event_listeners && r.name == self.name,   // #keeps_every_other_setting [C04]
+    //@body CircuitBreakerConfigBuilder::failure_classifier file=cbconfig
+    pub fn classify_response<F, Res>(self, classifier: F) -> (r: CircuitBreakerConfigBuilder<FnClassifier<ResponseClassifier>>)
+        ensures
+            r.permitted_calls_in_half_open == self.permitted_calls_in_half_open,   // #keeps_the_half_open_budget [C04,C09]
+            r.wait_duration_in_open == self.wait_duration_in_open,   // #keeps_the_open_wait [C03,C04]
+            r.failure_rate_threshold == self.failure_rate_threshold && r.sliding_window_type == self.sliding_window_type && r.sliding_window_size == self.sliding_window_size && r.sliding_window_duration == self.sliding_window_duration && r.minimum_number_of_calls == self.minimum_number_of_calls && r.slow_call_duration_threshold == self.slow_call_duration_threshold && r.slow_call_rate_threshold == self.slow_call_rate_threshold && r.event_listeners == self.event_listeners && r.name == self.name,   // #keeps_every_other_setting [C04]
+    //@body CircuitBreakerConfigBuilder::classify_response file=cbconfig
+    pub fn on_state_transition<F>(self, f: F) -> (r: Self)
+        ensures
+            r.permitted_calls_in_half_open == self.permitted_calls_in_half_open,   // #keeps_the_half_open_budget [C04,C09]
+            r.wait_duration_in_open == self.wait_duration_in_open,   // #keeps_the_open_wait [C03,C04]
+            r.failure_rate_threshold == self.failure_rate_threshold && r.sliding_window_type == self.sliding_window_type && r.sliding_window_size == self.sliding_window_size && r.sliding_window_duration == self.sliding_window_duration && r.failure_classifier == self.failure_classifier && r.minimum_number_of_calls == self.minimum_number_of_calls && r.slow_call_duration_threshold == self.slow_call_duration_threshold && r.slow_call_rate_threshold == self.slow_call_rate_threshold && r.name == self.name,   // #keeps_every_other_setting [C04]
+    //@body CircuitBreakerConfigBuilder::on_state_transition file=cbconfig
+    pub fn on_call_permitted<F>(self, f: F) -> (r: Self)
+        ensures
+            r.permitted_calls_in_half_open == self.permitted_calls_in_half_open,   // #keeps_the_half_open_budget [C04,C09]
+            r.wait_duration_in_open == self.wait_duration_in_open,   // #keeps_the_open_wait [C03,C04]
+            r.failure_rate_threshold == self.failure_rate_threshold && r.sliding_window_type == self.sliding_window_type && r.sliding_window_size == self.sliding_window_size && r.sliding_window_duration == self.sliding_window_duration && r.failure_classifier == self.failure_classifier && r.minimum_number_of_calls == self.minimum_number_of_calls && r.slow_call_duration_threshold == self.slow_call_duration_threshold && r.slow_call_rate_threshold == self.slow_call_rate_threshold && r.name == self.name,   // #keeps_every_other_setting [C04]
+    //@body CircuitBreakerConfigBuilder::on_call_permitted file=cbconfig
+    pub fn on_call_rejected<F>(self, f: F) -> (r: Self)
+        ensures
+            r.permitted_calls_in_half_open == self.permitted_calls_in_half_open,   // #keeps_the_half_open_budget [C04,C09]
+            r.wait_duration_in_open == self.wait_duration_in_open,   // #keeps_the_open_wait [C03,C04]
+            r.failure_rate_threshold == self.failure_rate_threshold && r.sliding_window_type == self.sliding_window_type && r.sliding_window_size == self.sliding_window_size && r.sliding_window_duration == self.sliding_window_duration && r.failure_classifier == self.failure_classifier && r.minimum_number_of_calls == self.minimum_number_of_calls && r.slow_call_duration_threshold == self.slow_call_duration_threshold && r.slow_call_rate_threshold == self.slow_call_rate_threshold && r.name == self.name,   // #keeps_every_other_setting [C04]
+    //@body CircuitBreakerConfigBuilder::on_call_rejected file=cbconfig
+    pub fn on_success<F>(self, f: F) -> (r: Self)
+        ensures
+            r.permitted_calls_in_half_open == self.permitted_calls_in_half_open,   // #keeps_the_half_open_budget [C04,C09]
+            r.wait_duration_in_open == self.wait_duration_in_open,   // #keeps_the_open_wait [C03,C04]
+            r.failure_rate_threshold == self.failure_rate_threshold && r.sliding_window_type == self.sliding_window_type && r.sliding_window_size == self.sliding_window_size && r.sliding_window_duration == self.sliding_window_duration && r.failure_classifier == self.failure_classifier && r.minimum_number_of_calls == self.minimum_number_of_calls && r.slow_call_duration_threshold == self.slow_call_duration_threshold && r.slow_call_rate_threshold == self.slow_call_rate_threshold && r.name == self.name,   // #keeps_every_other_setting [C04]
+    //@body CircuitBreakerConfigBuilder::on_success file=cbconfig
+    pub fn on_failure<F>(self, f: F) -> (r: Self)
+        ensures
+            r.permitted_calls_in_half_open == self.permitted_calls_in_half_open,   // #keeps_the_half_open_budget [C04,C09]
+            r.wait_duration_in_open == self.wait_duration_in_open,   // #keeps_the_open_wait [C03,C04]
+            r.failure_rate_threshold == self.failure_rate_threshold && r.sliding_window_type == self.sliding_window_type && r.sliding_window_size == self.sliding_window_size && r.sliding_window_duration == self.sliding_window_duration && r.failure_classifier == self.failure_classifier && r.minimum_number_of_calls == self.minimum_number_of_calls && r.slow_call_duration_threshold == self.slow_call_duration_threshold && r.slow_call_rate_threshold == self.slow_call_rate_threshold && r.name == self.name,   // #keeps_every_other_setting [C04]
+    //@body CircuitBreakerConfigBuilder::on_failure file=cbconfig
+    pub fn on_slow_call<F>(self, f: F) -> (r: Self)
+        ensures
+            r.permitted_calls_in_half_open == self.permitted_calls_in_half_open,   // #keeps_the_half_open_budget [C04,C09]
+            r.wait_duration_in_open == self.wait_duration_in_open,   // #keeps_the_open_wait [C03,C04]
+            r.failure_rate_threshold == self.failure_rate_threshold && r.sliding_window_type == self.sliding_window_type && r.sliding_window_size == self.sliding_window_size && r.sliding_window_duration == self.sliding_window_duration && r.failure_classifier == self.failure_classifier && r.minimum_number_of_calls == self.minimum_number_of_calls && r.slow_call_duration_threshold == self.slow_call_duration_threshold && r.slow_call_rate_threshold == self.slow_call_rate_threshold && r.name == self.name,   // #keeps_every_other_setting [C04]
+    //@body CircuitBreakerConfigBuilder::on_slow_call file=cbconfig
     pub fn build(self) -> (r: CircuitBreakerLayer<C>)
         requires self.sliding_window_type == SlidingWindowType::TimeBased ==> self.sliding_window_duration is Some,   // build() panics otherwise
         ensures
+            r.config.permitted_calls_in_half_open == self.permitted_calls_in_half_open,   // #half_open_budget_is_exactly_what_was_set [C04,C09]
+            r.config.wait_duration_in_open == self.wait_duration_in_open,   // #open_wait_is_exactly_what_was_set [C03,C04]
             r.config.minimum_number_of_calls == (if self.minimum_number_of_calls is Some { self.minimum_number_of_calls->0 } else { self.sliding_window_size }),   // #minimum_calls_defaults_to_the_window_size [C04]
             r.config.failure_rate_threshold == self.failure_rate_threshold && r.config.sliding_window_type == self.sliding_window_type && r.config.sliding_window_size == self.sliding_window_size
-                && r.config.sliding_window_duration == self.sliding_window_duration && r.config.wait_duration_in_open == self.wait_duration_in_open
-                && r.config.permitted_calls_in_half_open == self.permitted_calls_in_half_open && r.config.failure_classifier == self.failure_classifier
+                && r.config.sliding_window_duration == self.sliding_window_duration
+                && r.config.failure_classifier == self.failure_classifier
                 && r.config.slow_call_duration_threshold == self.slow_call_duration_threshold && r.config.slow_call_rate_threshold == self.slow_call_rate_threshold
                 && r.config.event_listeners == self.event_listeners && r.config.name == self.name,   // #configuration_is_exactly_what_was_set [C04]
             r.config.sliding_window_type == SlidingWindowType::TimeBased ==> r.config.sliding_window_duration is Some,   // #time_based_window_always_has_a_duration [C04]
